@@ -235,6 +235,65 @@ def solve_all(lp, limit=2000000, aux_order='lo'):
     return vs, nproj, results, sign
 
 
+def check_solver_point(lp, tol=1e-6):
+    """After a real CBC solve that claims Optimal: does the returned point satisfy the
+    problem?  Returns None or a description of the first violated row / bound."""
+    for v in lp.variables():
+        x = v.varValue
+        if x is None:
+            continue
+        if (v.lowBound is not None and x < v.lowBound - tol) or \
+                (v.upBound is not None and x > v.upBound + tol):
+            return 'variable %s = %r outside [%r, %r]' % (v.name, x, v.lowBound, v.upBound)
+        if v.cat == constants.LpInteger and abs(x - round(x)) > tol:
+            return 'integer variable %s = %r' % (v.name, x)
+    for name, c in lp.constraints.items():
+        val = sum(a * (v.varValue or 0.0) for v, a in c.items()) + c.constant
+        if (c.sense == constants.LpConstraintLE and val > tol) or \
+                (c.sense == constants.LpConstraintGE and val < -tol) or \
+                (c.sense == constants.LpConstraintEQ and abs(val) > tol):
+            return 'row %s: %s' % (name, c)
+    return None
+
+
+def _guard_cbc(lp):
+    """A real CBC answer is used only if CBC did its job on the program it was given: the
+    point it calls Optimal satisfies the program, and - when the program is small enough to
+    enumerate (<= 14 pair variables) - its verdict and objective value are the true ones.
+    Found necessary in practice: the CBC binary bundled with PuLP 2.9.0 returns, with status
+    Optimal, a point violating a <= 1 row on a 13-variable program of the pinned tree unless
+    integer preprocessing is switched off (corpus/C07/cbc_returns_infeasible_point.json)."""
+    from .common import SolverMisbehaved
+    if lp.status == constants.LpStatusOptimal:
+        bad = check_solver_point(lp)
+        if bad:
+            raise SolverMisbehaved('CBC reports Optimal with a point that violates ' + bad)
+    if lp.status not in (constants.LpStatusOptimal, constants.LpStatusInfeasible):
+        return
+    try:
+        vs, lo, hi, cons, ot, nproj, sign = extract(lp)
+        if nproj > 14:
+            return
+        claimed = None
+        if lp.status == constants.LpStatusOptimal:
+            pos = {id(v): i for i, v in enumerate(vs)}
+            claimed = sum(a * (vs[i].varValue or 0.0) for i, a in ot)
+        _, _, res, _ = solve_all(lp, limit=40000)
+    except (Unenumerable, HarnessError):
+        return
+    if lp.status == constants.LpStatusInfeasible:
+        if res:
+            raise SolverMisbehaved('CBC reports Infeasible, the program has %d feasible '
+                                   'pair assignments' % len(res))
+        return
+    if not res:
+        raise SolverMisbehaved('CBC reports Optimal, the program is infeasible')
+    best = max(r[1] for r in res)
+    if claimed < best - 1e-6:
+        raise SolverMisbehaved('CBC reports Optimal with objective %r (maximise orientation), '
+                               'the optimum is %r' % (claimed, best))
+
+
 class Backend(object):
     def __init__(self, mode='eb', choices=(), keep_sets=True, hook=None, salt=0, aux_order=None,
                  ones_as=None):
@@ -290,6 +349,7 @@ class Backend(object):
         rec.chosen = None
         if self.mode == 'cbc':
             status = coin_api.COIN_CMD.actualSolve(solver_self, lp, **kwargs)
+            _guard_cbc(lp)
             rec.status = constants.LpStatus[lp.status]
             rec.objective = None
             self.records.append(rec)
@@ -309,6 +369,7 @@ class Backend(object):
             # not a bounded pure-integer program (e.g. a variable lost its category): the
             # exact enumeration does not apply; let the real solver answer this one
             coin_api.COIN_CMD.actualSolve(solver_self, lp, **kwargs)
+            _guard_cbc(lp)
             rec.status = constants.LpStatus[lp.status]
             rec.objective = None
             self.fell_back = True
@@ -358,6 +419,7 @@ class Backend(object):
 
     def _cross_check(self, solver_self, lp, rec, opt, kwargs):
         coin_api.COIN_CMD.actualSolve(solver_self, lp, **kwargs)
+        _guard_cbc(lp)
         st = constants.LpStatus[lp.status]
         if opt is None:
             if st != 'Infeasible':
